@@ -105,6 +105,187 @@ def _rand_amount(rnd):
     return (rnd.randrange(-10**7, 10**7), rnd.randrange(-10**9, 10**9), rnd.randrange(-10**11, 10**11), rnd.randrange(-10**17, 10**17))
 
 
+
+# ----------------------------------------------------------------------------- timedelta SUBCLASS operands (Duration, AbsoluteDuration, Interval)
+# A Duration / AbsoluteDuration operand is its nine constructor integers in the positional order of Duration.__new__:
+#   (days, seconds, microseconds, milliseconds, minutes, hours, weeks, years, months);  kind 0 = Duration, 1 = AbsoluteDuration.
+# An Interval operand (kind 2) is (variant, start, end, absolute): start / end are microseconds since 1970-01-01T00:00 UTC, the variant says
+# how the two endpoints are presented and how the Interval is obtained (IVL_VARIANTS).
+OPERAND_FNS = ("sc_add_timedelta", "sc_subtract_timedelta", "sc_op_add", "sc_op_sub", "sc_op_radd")
+IVL_VARIANTS = 8
+YEAR_US, MONTH_US = 365 * DAY, 30 * DAY
+SPAN_LIMIT = 60 * 365 * DAY      # |native value| and |value without the year/month part| stay far inside C09's exactness domain D9 (2^32 s = 136 years)
+
+
+def _dur_native(kind, a):
+    """the native timedelta value in microseconds of Duration(*a) / AbsoluteDuration(*a) (exact integer arithmetic)"""
+    d, s, us, ms, mi, h, w, y, mo = a
+    if kind == 0:
+        d = d + 365 * y + 30 * mo
+    return ((((w * 7 + d) * 24 + h) * 60 + mi) * 60 + s) * 10**6 + ms * 1000 + us
+
+
+def _split_total(rnd, total, style):
+    """nine constructor integers of native value `total` (years = months = 0), decomposed in the given style"""
+    if style == 0:      # all in microseconds
+        return [0, 0, total, 0, 0, 0, 0, 0, 0]
+    if style == 1:      # seconds + microseconds (floor)
+        return [0, total // 10**6, total % 10**6, 0, 0, 0, 0, 0, 0]
+    if style == 2:      # sign-magnitude h / m / s / us (what the class itself reports)
+        sg = -1 if total < 0 else 1
+        m = abs(total)
+        return [0, sg * (m // 10**6 % 60), sg * (m % 10**6), 0, sg * (m // (60 * 10**6) % 60), sg * (m // (3600 * 10**6)), 0, 0, 0]
+    if style == 3:      # normal form days / seconds / microseconds
+        return [total // DAY, total % DAY // 10**6, total % 10**6, 0, 0, 0, 0, 0, 0]
+    if style == 4:      # weeks + days + hours + ... (floor at every level)
+        w, r = divmod(total, 7 * DAY)
+        d, r = divmod(r, DAY)
+        h, r = divmod(r, 3600 * 10**6)
+        mi, r = divmod(r, 60 * 10**6)
+        sec, r = divmod(r, 10**6)
+        ms, us = divmod(r, 1000)
+        return [d, sec, us, ms, mi, h, w, 0, 0]
+    if style == 5:      # compensating parts: overshoot in one unit, come back in another
+        k = rnd.randrange(1, 50)
+        pick = rnd.randrange(4)
+        if pick == 0:
+            return [k, 0, total - k * DAY, 0, 0, 0, 0, 0, 0]
+        if pick == 1:
+            return [0, 0, total % (3600 * 10**6), 0, -60 * k, k + total // (3600 * 10**6), 0, 0, 0]
+        if pick == 2:
+            return [-7 * k, total // 10**6, total % 10**6, 0, 0, 0, k, 0, 0]
+        return [k, -86400 * k + total // 10**6, total % 10**6 - 1000 * k, k, 0, 0, 0, 0, 0]
+    # milliseconds + minutes
+    mi, r = divmod(total, 60 * 10**6)
+    ms, us = divmod(r, 1000)
+    return [0, 0, us, ms, mi, 0, 0, 0, 0]
+
+
+def _with_ym(rnd, a, kind, keep):
+    """add a years / months part; keep=True compensates it in days so that the NATIVE value is unchanged (Duration only counts them)"""
+    a = list(a)
+    y, mo = rnd.choice([(1, 0), (0, 1), (-1, 0), (0, -1), (1, -12), (2, 5), (-3, 7), (rnd.randrange(-20, 21), rnd.randrange(-30, 31))])
+    a[7], a[8] = y, mo
+    if keep and kind == 0:
+        a[0] -= 365 * y + 30 * mo
+    return a
+
+
+SC_TOTALS = sorted({0, 1, 999, 1000, 999999, 10**6, 10**6 + 1, 59 * 10**6, 60 * 10**6, 3599 * 10**6 + 999999, 3600 * 10**6, 12 * 3600 * 10**6,
+                    23 * 3600 * 10**6, 86399 * 10**6, DAY - 10**6, DAY - 1000, DAY - 1,                                   # no day component
+                    DAY, DAY + 1, DAY + 999999, DAY + 10**6, DAY + 3600 * 10**6, DAY + 2 * 3600 * 10**6, 25 * 3600 * 10**6, 2 * DAY - 1, 2 * DAY,
+                    2 * DAY + 3 * 3600 * 10**6 + 4 * 60 * 10**6 + 5 * 10**6 + 6, 6 * DAY, 7 * DAY - 1, 7 * DAY, 7 * DAY + 1, 8 * DAY,
+                    14 * DAY, 30 * DAY, 31 * DAY, 365 * DAY, 366 * DAY, 395 * DAY, 400 * 365 * DAY // 10,               # whole days and more
+                    -1, -999, -1000, -999999, -10**6, -10**6 - 1, -60 * 10**6, -3600 * 10**6, -12 * 3600 * 10**6, -86399 * 10**6, -DAY + 1,   # days = -1
+                    -DAY, -DAY - 1, -DAY - 3600 * 10**6, -25 * 3600 * 10**6, -49 * 3600 * 10**6 - 30 * 60 * 10**6, -2 * DAY + 1, -2 * DAY, -3 * DAY - 3600 * 10**6,
+                    -7 * DAY, -7 * DAY - 1, -30 * DAY, -365 * DAY, -366 * DAY})
+
+
+def _rand_total(rnd):
+    k = rnd.randrange(10)
+    if k <= 2:
+        return rnd.randrange(0, DAY)                                   # accepted region
+    if k == 3:
+        return rnd.randrange(-DAY + 1, 0)                              # negative, shorter than a day
+    if k == 4:
+        return rnd.choice([-1, 1]) * rnd.randrange(1, 400) * DAY       # whole days: every sub-day component is zero
+    if k == 5:
+        return rnd.choice([-1, 1]) * (rnd.randrange(1, 60) * DAY + rnd.randrange(0, DAY))
+    if k == 6:
+        return rnd.choice([-1, 1]) * (rnd.choice([1, 7, 30, 365]) * DAY) + rnd.randrange(-2 * 10**6, 2 * 10**6)   # next to a unit of days
+    if k == 7:
+        return rnd.choice([0, DAY, -DAY, 2 * DAY]) + rnd.randrange(-3, 4)
+    if k == 8:
+        return rnd.randrange(-SPAN_LIMIT // 2, SPAN_LIMIT // 2)
+    return rnd.randrange(-3 * DAY, 3 * DAY)
+
+
+def _operand_cases(rnd, big, rtod):
+    """[(kind, args)]: subclass operands with and without a day component"""
+    ops = []
+    # hand-picked constructor calls (the forms a user writes)
+    z = [0] * 9
+    def D(**kw):
+        a = list(z)
+        for k, v in kw.items():
+            a[("days", "seconds", "microseconds", "milliseconds", "minutes", "hours", "weeks", "years", "months").index(k)] = v
+        return a
+    literal = [D(), D(days=1), D(days=1, hours=2), D(days=2, hours=3, minutes=4, seconds=5, microseconds=6), D(hours=24), D(hours=25), D(hours=23, minutes=59, seconds=59, microseconds=999999),
+               D(weeks=1), D(weeks=1, hours=1), D(weeks=-1), D(days=7), D(days=-3, hours=-1), D(hours=-49, minutes=-30), D(days=5, minutes=1), D(minutes=1440), D(minutes=1439),
+               D(seconds=86400), D(seconds=86399, microseconds=999999), D(microseconds=DAY), D(milliseconds=86400000), D(milliseconds=86399999, microseconds=999),
+               D(hours=-1), D(microseconds=-1), D(seconds=-1), D(days=-1), D(days=-1, hours=24), D(days=-1, hours=25), D(days=1, hours=-24), D(days=1, hours=-1), D(days=1, hours=-25),
+               D(years=1), D(months=1), D(years=1, hours=2), D(months=1, minutes=5), D(years=-1), D(months=-1, hours=3), D(years=1, months=-12), D(years=1, months=-12, hours=7),
+               D(years=1, days=-365), D(years=1, days=-365, hours=2), D(years=1, days=-365, hours=2, microseconds=5), D(years=1, days=-366, hours=23), D(months=1, days=-30, seconds=1),
+               D(months=1, days=-30, hours=-1), D(years=-1, days=365, hours=5), D(years=-1, days=365, microseconds=1), D(years=2, months=5, days=-880, hours=12),
+               D(weeks=1, days=-7, hours=3), D(weeks=52, days=-364, minutes=90), D(hours=5, minutes=6, seconds=7, microseconds=8), D(hours=12), D(hours=12, minutes=-721), D(seconds=3600, minutes=-60)]
+    for a in literal:
+        for kind in (0, 1):
+            ops.append((kind, a))
+    styles = 7
+    for i, tot in enumerate(SC_TOTALS):
+        for st in range(styles):
+            a = _split_total(rnd, tot, st)
+            ops.append((0, a))
+            if (i + st) % 2:
+                ops.append((1, a))
+        ops.append((0, _with_ym(rnd, _split_total(rnd, tot, i % styles), 0, True)))      # native value kept, class components shifted by a year/month part
+        ops.append((0, _with_ym(rnd, _split_total(rnd, tot, (i + 3) % styles), 0, False)))
+        ops.append((1, _with_ym(rnd, _split_total(rnd, tot, (i + 1) % styles), 1, False)))  # AbsoluteDuration ignores years/months in its native value
+    for _ in range(700 * (6 if big else 1)):
+        tot = _rand_total(rnd)
+        a = _split_total(rnd, tot, rnd.randrange(styles))
+        kind = 0 if rnd.random() < 0.65 else 1
+        r = rnd.random()
+        if r < 0.25:
+            a = _with_ym(rnd, a, kind, True)
+        elif r < 0.35:
+            a = _with_ym(rnd, a, kind, False)
+        ops.append((kind, a))
+    ops = [(k, a) for k, a in ops if abs(_dur_native(k, a)) < SPAN_LIMIT and abs(_dur_native(1, a)) < SPAN_LIMIT]
+    # Intervals: (variant, start, end, absolute)
+    ivs = []
+    base = [0, 10**6 * 86400 * 18262 + 12 * 3600 * 10**6, 951782400 * 10**6 + 86399999999, -86400 * 10**6 * 3653 + 1, 1583020800 * 10**6 - 1]   # 1970, 2020-01-01T12, 2000-02-29, 1960, 2020-02-29/03-01
+    for i, tot in enumerate(SC_TOTALS):
+        if abs(tot) >= SPAN_LIMIT:
+            continue
+        for j in range(2):
+            s0 = base[(i + j) % len(base)]
+            ivs.append(((i + 3 * j) % IVL_VARIANTS, s0, s0 + tot, (i + j) % 2))
+        ivs.append((i % 4, base[i % len(base)] - tot, base[i % len(base)], 1))
+    for _ in range(500 * (6 if big else 1)):
+        tot = _rand_total(rnd)
+        s0 = rnd.choice(base) if rnd.random() < 0.3 else rnd.randrange(-40 * 365 * DAY, 60 * 365 * DAY)
+        ivs.append((rnd.randrange(IVL_VARIANTS), s0, s0 + tot, rnd.randrange(2)))
+    out = []
+    for i, (kind, a) in enumerate(ops):
+        t = B_TOD[(i * 5) % len(B_TOD)] if i % 3 else rtod()
+        for fn in OPERAND_FNS[:4]:
+            out.append({"stream": "subclass-operand", "fn": fn, "args": [t, kind, *a]})
+        if i % 4 == 0:
+            out.append({"stream": "subclass-operand", "fn": "sc_op_radd", "args": [t, kind, *a]})
+        out.append({"stream": "subclass-operand-accessors", "fn": "sc_observe", "args": [kind, *a]})
+    for i, (v, s0, e0, ab) in enumerate(ivs):
+        if v == 6:       # Date endpoints: whole days
+            s0, e0 = s0 // DAY * DAY, e0 // DAY * DAY
+        t = B_TOD[(i * 7) % len(B_TOD)] if i % 3 else rtod()
+        for fn in OPERAND_FNS[:4]:
+            out.append({"stream": "interval-operand", "fn": fn, "args": [t, 2, v, s0, e0, ab]})
+        if i % 4 == 0:
+            out.append({"stream": "interval-operand", "fn": "sc_op_radd", "args": [t, 2, v, s0, e0, ab]})
+        out.append({"stream": "subclass-operand-accessors", "fn": "sc_observe", "args": [2, v, s0, e0, ab]})
+    return out
+
+
+def _ivl_delta(a):
+    """span in microseconds of the Interval described by (variant, start, end, absolute): end - start, its magnitude when absolute
+    (variants 3 = `end - start` and 7 = `start - end` build a signed Interval whatever the flag)"""
+    v, s0, e0, ab = a
+    if v == 7:
+        return s0 - e0
+    d = e0 - s0
+    return abs(d) if (ab and v != 3) else d
+
+
 def cases(tier, seed):
     rnd = random.Random(seed * 1000003 + 20)
     big = tier == "thorough"
@@ -195,6 +376,9 @@ def cases(tier, seed):
         out.append({"stream": "add_duration-normalisation", "fn": "norm", "args": [rnd.randrange(-5, 6), *_rand_amount(rnd)]})
     for v in range(12):
         out.append({"stream": "guards", "fn": "guard", "args": [v, rtod(), rtod()]})
+    # timedelta subclasses handed to + / - / add_timedelta / subtract_timedelta (own generator: the streams above are unchanged)
+    rnd2 = random.Random(seed * 1000003 + 2020)
+    out += _operand_cases(rnd2, big, lambda: rnd2.choice(B_TOD) if rnd2.random() < 0.3 else rnd2.randrange(0, DAY))
     return out
 
 
@@ -251,6 +435,17 @@ def impl_run(cases):
                 out.append(time_res(r))
             elif fn == "td_spec":
                 out.append([0])
+            elif fn in OPERAND_FNS:
+                t = T(*_fields(a[0]))
+                d = _build_operand(a[1:], pendulum, datetime)
+                r = t.add_timedelta(d) if fn == "sc_add_timedelta" else t.subtract_timedelta(d) if fn == "sc_subtract_timedelta" else \
+                    t + d if fn == "sc_op_add" else t - d if fn == "sc_op_sub" else d + t
+                out.append(time_res(r))
+            elif fn == "sc_observe":
+                d = _build_operand(a, pendulum, datetime)
+                out.append([0, d.days, d.seconds, d.microseconds,
+                            timedelta.days.__get__(d), timedelta.seconds.__get__(d), timedelta.microseconds.__get__(d),
+                            int(type(d) is (Duration, AbsoluteDuration, pendulum.Interval)[a[0]])])
             elif fn == "diff":
                 t1, t2 = T(*_fields(a[0])), T(*_fields(a[1]))
                 d = t1.diff(t2, bool(a[2]))
@@ -298,6 +493,38 @@ def impl_run(cases):
         except Exception as e:  # noqa
             out.append([1, type(e).__name__])
     return out
+
+
+def _build_operand(a, pendulum, datetime):
+    """the timedelta-subclass object described by a = [kind, ...] (see OPERAND_FNS); runs inside the staged interpreter"""
+    from pendulum.duration import AbsoluteDuration, Duration
+    kind = a[0]
+    if kind == 0:
+        return Duration(*a[1:10])
+    if kind == 1:
+        return AbsoluteDuration(*a[1:10])
+    v, s0, e0, ab = a[1:5]
+    E = datetime.datetime(1970, 1, 1)
+
+    def f(x, off=0):
+        z = E + datetime.timedelta(microseconds=x + off * 10**6)
+        return (z.year, z.month, z.day, z.hour, z.minute, z.second, z.microsecond)
+    P = lambda x: pendulum.datetime(*f(x))                         # UTC
+    if v == 0:
+        return pendulum.Interval(P(s0), P(e0), absolute=bool(ab))
+    if v == 1:
+        return pendulum.Interval(pendulum.naive(*f(s0)), pendulum.naive(*f(e0)), absolute=bool(ab))
+    if v == 2:
+        return pendulum.Interval(datetime.datetime(*f(s0)), datetime.datetime(*f(e0)), absolute=bool(ab))
+    if v == 3:
+        return P(e0) - P(s0)
+    if v == 4:
+        return P(s0).diff(P(e0), bool(ab))
+    if v == 5:          # the same instants, the start presented in a fixed +05:30 zone
+        return pendulum.Interval(pendulum.datetime(*f(s0, 19800), tz=pendulum.FixedTimezone(19800)), P(e0), absolute=bool(ab))
+    if v == 6:
+        return pendulum.Interval(pendulum.date(*f(s0)[:3]), pendulum.date(*f(e0)[:3]), absolute=bool(ab))
+    return P(s0) - datetime.datetime(*f(e0), tzinfo=datetime.timezone.utc)
 
 
 def _guard(a, T, pendulum, datetime, timedelta):
@@ -359,6 +586,14 @@ def model_calls(c, backend):
         return [("time_subtract_timedelta", a)]
     if fn == "td_spec":
         return [("td_make", a)]
+    if fn in OPERAND_FNS or fn == "sc_observe":
+        if fn == "sc_op_radd":
+            return None                       # timedelta + Time: only the oracle speaks (no __radd__ in the model)
+        head, o = ([a[0]], a[1:]) if fn != "sc_observe" else ([], a)
+        nine = list(o[1:10]) if o[0] != 2 else [_ivl_delta(o[1:5])] + [0] * 8
+        name = {"sc_add_timedelta": "time_add_operand", "sc_op_add": "time_add_operand", "sc_subtract_timedelta": "time_subtract_operand",
+                "sc_op_sub": "time_subtract_operand", "sc_observe": "operand_observe"}[fn]
+        return [(name, head + [o[0]] + nine)]
     if fn == "diff":
         return [("time_diff", a)]
     if fn == "op_sub_time":
@@ -397,6 +632,8 @@ def model_result(c, backend, outs):
         return list(outs[0]) + [1]
     if fn in ("closest", "farthest"):
         return list(outs[0]) + [1]
+    if fn == "sc_observe":
+        return _mres(outs[0]) + ([1] if outs[0][0] == 0 else [])
     return _mres(outs[0])
 
 
@@ -416,6 +653,25 @@ def _expected_shift(tod, amount):
     dt = datetime.datetime(1970, 1, 1) + datetime.timedelta(microseconds=tod + amount)
     assert _tod_of(dt.time()) == r
     return r
+
+
+def _operand_expect(o):
+    """(has a day component, total in microseconds, description) of the operand o = [kind, ...], standard library only.
+    Duration / AbsoluteDuration: the timedelta value they ARE (years * 365 + months * 30 days counted by Duration, ignored by AbsoluteDuration),
+    day component = days of its normal form != 0, exactly as for a plain timedelta.  Interval: it presents itself in sign-magnitude form
+    (Interval.days is overridden), day component = |span| >= 24 h, and a shorter span of EITHER sign shifts exactly."""
+    from datetime import timedelta
+    kind = o[0]
+    if kind in (0, 1):
+        d, s, us, ms, mi, h, w, y, mo = o[1:10]
+        td = timedelta(days=d + (365 * y + 30 * mo if kind == 0 else 0), seconds=s, microseconds=us, milliseconds=ms, minutes=mi, hours=h, weeks=w)
+        assert (td.days * 86400 + td.seconds) * 10**6 + td.microseconds == _dur_native(kind, o[1:10])
+        kw = ", ".join(f"{k}={v}" for k, v in zip(("days", "seconds", "microseconds", "milliseconds", "minutes", "hours", "weeks", "years", "months"), o[1:10]) if v)
+        return td.days != 0, td.seconds * 10**6 + td.microseconds, f"{('Duration', 'AbsoluteDuration')[kind]}({kw}) [= {td!r}]"
+    delta = _ivl_delta(o[1:5])
+    how = ("Interval(utc, utc)", "Interval(naive, naive)", "Interval(datetime, datetime)", "end - start", "start.diff(end)", "Interval(+05:30, utc)",
+           "Interval(date, date)", "start - stdlib end")[o[1]]
+    return abs(delta) >= DAY, delta, f"{how} start={o[2]} end={o[3]} absolute={o[4]} [span {delta} us = {timedelta(microseconds=delta)!r}]"
 
 
 def oracle(c, backend, r):
@@ -441,6 +697,25 @@ def oracle(c, backend, r):
         amount = td.seconds * 10**6 + td.microseconds
         e = _expected_shift(a[0], amount if fn in ("add_timedelta", "op_add_td") else -amount)
         return None if r == [0, e, 1] else f"Time{_fields(a[0])} {fn} {td!r} -> {r}, expected {[0, e, 1]}"
+    if fn in OPERAND_FNS:
+        has_days, total, what = _operand_expect(a[1:])
+        sign = -1 if fn in ("sc_subtract_timedelta", "sc_op_sub") else 1
+        how = {"sc_add_timedelta": "t.add_timedelta(x)", "sc_subtract_timedelta": "t.subtract_timedelta(x)", "sc_op_add": "t + x", "sc_op_sub": "t - x", "sc_op_radd": "x + t"}[fn]
+        if fn == "sc_op_radd" and r == [1, "TypeError"]:
+            return None                      # timedelta + Time is not offered at all
+        if has_days:
+            return None if r == [1, "TypeError"] else f"t = Time{_fields(a[0])}, x = {what} has a day component: {how} was not rejected with TypeError: {r}"
+        e = _expected_shift(a[0], sign * total)
+        return None if r == [0, e, 1] else f"t = Time{_fields(a[0])}, x = {what} (no day component, {total} us): {how} -> {r}, expected {[0, e, 1]} (exact shift modulo 24 h)"
+    if fn == "sc_observe":
+        _, _, what = _operand_expect(a)
+        tot = _dur_native(a[0], a[1:10]) if a[0] != 2 else _ivl_delta(a[1:5])
+        td = timedelta(microseconds=tot)
+        if r[0] != 0:
+            return f"{what} could not be built: {r}"
+        if r[4:7] != [td.days, td.seconds, td.microseconds] or r[7] != 1:
+            return f"{what}: the native timedelta fields are {r[4:7]} (class ok: {r[7]}), the value is {tot} us = {[td.days, td.seconds, td.microseconds]}"
+        return None
     if fn == "td_spec":
         return None
     if fn == "diff":
